@@ -19,7 +19,8 @@ RULE = ("grammar-generated ASTs of the stratified expression language (every ope
         "single-character deletions and a sample of insertions/replacements over the solver alphabet, classified "
         "by the reference recogniser (well-formed -> value must equal the specification; unbalanced / wrong "
         "arity / missing operand -> must raise; other -> only impl = model); random literal candidates for the "
-        "float-literal recogniser. non-trivial = expression with >= 2 operators of different steps, a sign, or "
+        "float-literal recogniser; every stream is also solved, in the same order (well-formed strings interleaved "
+        "with the malformed ones), by ONE long-lived solver instance. non-trivial = expression with >= 2 operators of different steps, a sign, or "
         "a call; distinct = the text")
 ASSUMPTIONS = [
     "atoms are compared symbolically: the real solver runs with a term-recording atom class that exposes exactly "
@@ -237,11 +238,19 @@ def ast_stream(ctx, asts, edit_every, n_sample, where="ast"):
     wf_edits = [(i, m[3]) for i, m in enumerate(meta) if m[0] == "edit" and m[1] == "wf"]
     evs = ctx.driver.ask_many([{"k": "spec", "ast": a, "bl": []} for _, a in wf_edits])
     ev_of = {i: (r["ok"]["eval"] if "ok" in r and r["ok"]["wf"] else None) for (i, _), r in zip(wf_edits, evs)}
+    reuse = []          # the same strings, in this order, for ONE long-lived solver instance
     for i, (m, r) in enumerate(zip(meta, res)):
         if "ok" not in r:
             ctx.disagreement("driver", {"text": m[2]}, str(r))
             continue
         model = r["ok"]["model"]
+        if m[0] == "orig":
+            reuse.append((m[2], "wf", m[3]))
+        elif m[1] == "wf":
+            if ev_of.get(i) is not None:
+                reuse.append((m[2], "wf", ev_of[i]))
+        else:
+            reuse.append((m[2], m[1], None))
         if m[0] == "orig":
             _, e, text, ev = m
             ctx.case(text, nontrivial(e), {"text": text, "value": json.dumps(ev)[:120]})
@@ -260,6 +269,58 @@ def ast_stream(ctx, asts, edit_every, n_sample, where="ast"):
             else:
                 ctx.case(t, cls != "other", {"text": t, "class": cls} if cls != "other" else None)
                 judge_text(ctx, t, cls, None, model, opname, where + "-edit")
+
+
+    longlived_stream(ctx, reuse, where)
+
+
+def longlived_stream(ctx, items, where):
+    """The property speaks of "the solver", not of a fresh solver: all strings of a stream -- well-formed ones
+    interleaved with the malformed ones -- are solved by ONE instance inside one `with` block."""
+    from scinumtools.solver import ExpressionSolver
+
+    def once(es, text):
+        try:
+            return L.canon_result(es.solve(text))
+        except Exception:
+            return "err"
+
+    def verdict(impl, cls, ev):
+        if cls == "wf":
+            want = {"atom": L.norm(ev)}
+            got = {"atom": L.norm(impl["atom"])} if isinstance(impl, dict) and "atom" in impl else impl
+            return None if got == want else (got, want)
+        if cls in ("unbalanced", "arity", "missing"):
+            return None if impl == "err" else (impl, "err")
+        return None
+    failed_before = None
+    with ExpressionSolver(P.RecAtom) as es:
+        for n, (text, cls, ev) in enumerate(items):
+            impl = once(es, text)
+            ctx.count("longlived.calls")
+            bad = verdict(impl, cls, ev)
+            if bad is not None:
+                # smallest history that shows it: the last call that raised, then this one
+                hist = [text]
+                if failed_before is not None:
+                    with ExpressionSolver(P.RecAtom) as e2:
+                        once(e2, failed_before)
+                        if verdict(once(e2, text), cls, ev) is not None:
+                            hist = [failed_before, text]
+                if len(hist) == 1:
+                    with ExpressionSolver(P.RecAtom) as e3:
+                        if verdict(once(e3, text), cls, ev) is None:
+                            hist = [t for t, _, _ in items[max(0, n - 20):n + 1]]
+                ctx.violation("reused-instance:" + ("wf-value" if cls == "wf" else "reject"),
+                              "one solver instance, after %d earlier calls (the last rejected one: %r): solve(%r) gives "
+                              "%s, %s" % (n, failed_before, text, json.dumps(bad[0])[:250],
+                                          ("documented order gives %s" % json.dumps(bad[1])[:250]) if cls == "wf"
+                                          else "but the %s string must be rejected" % cls),
+                              {"stream": where + "-long-lived", "history": hist, "text": text, "class": cls,
+                               "impl": bad[0], "spec": bad[1]})
+                return
+            if impl == "err":
+                failed_before = text
 
 
 def text_stream(ctx, texts, where):
@@ -370,7 +431,18 @@ def search(ctx: Ctx):
 
 
 def replay(ctx: Ctx, payload):
-    text = payload.get("replay", payload).get("text")
+    rp = payload.get("replay", payload)
+    if rp.get("history"):
+        from scinumtools.solver import ExpressionSolver
+        print("one solver instance, calls in this order:")
+        with ExpressionSolver(P.RecAtom) as es:
+            for t in rp["history"]:
+                try:
+                    r = L.canon_result(es.solve(t))
+                except Exception:
+                    r = "err"
+                print("  solve(%r) -> %s   [fresh solver: %s]" % (t, json.dumps(r)[:200], json.dumps(L.run_rec(t))[:200]))
+    text = rp.get("text")
     if text is None:
         print(json.dumps(payload, indent=1)[:3000])
         return 0
